@@ -47,6 +47,9 @@ static inline uint8_t* SH(fm_t* m)  { return m->a.shadow + m->off; }
 /* set header bytes in both worlds */
 static void fm_load(fm_t* m, const uint8_t* hdr, size_t n)
 {
+    /* fresh random neighbourhood for every case: a result that depends on bytes next to the header shows up */
+    vp_rng_fill(&m->c->rng, PDU(m) - 24, 24); memcpy(SH(m) - 24, PDU(m) - 24, 24);
+    vp_rng_fill(&m->c->rng, PDU(m) + n, 24); memcpy(SH(m) + n, PDU(m) + n, 24);
     memcpy(PDU(m), hdr, n); memcpy(SH(m), hdr, n);
     memcpy(m->before, hdr, n > MAXHDR ? MAXHDR : n);
 }
